@@ -731,6 +731,9 @@ fn mutate_tree(rng: &mut Rng, root: &mut Node) -> &'static str {
                     " a=\"1\"", " a='>'", " a=\">\"", " a", " a=b", " a=\"", " xsi:type=\"Group\"", "/", " /", " a=\"1\" a=\"2\"",
                     " xsi:type='a&#9;b\tc'", " xsi:type", " xsi:type=", " xsi:type = 'x' ", " =\"1\"", " xsi:type=\"&#0;\"", " xsi:type=\"&bogus;\"",
                     " XSI:TYPE=\"Group\"", " a = \"1\"b='2'",
+                    // attribute syntax (production [41], Unique Att Spec): not closed, no value, no `=`, twice, unquoted
+                    " a='1", " a = ", " a b=\"1\"", " a=\"1\" b='2' a=''", " a='1' A='2'", " b!=\"1\"", " a=1", " a==\"1\"",
+                    " a=\"1\"\tb\n=\n'2'", " xsi:type=\"a\" xsi:type=\"b\"", " a=\"1\" b", " a='\"' b=\"'\"", " a=\"1\"a='1'",
                 ])
                 .to_owned();
             // replace the attributes, or put the new ones in front of / behind those the element has
